@@ -10,9 +10,11 @@ The constraint table is a *parameter* (`Cfg.svc`, `Cfg.node`): the same function
 on the table regenerated from the source (`Gen.Constraints`) and on tables edited by the
 harness, and the theorems in `Proofs/C10.lean` hold for every table.
 
-Abstraction.  A node is its type and the set of property names that really hold a truthy
-value (a node with components has `attached_components_info`).  A service is its type, its
-declared site, its other truthy properties, the site of the node that owns the service itself
+Abstraction.  A node is its type and the set of property names that are set - a non-empty string or
+any object (a node with components has `attached_components_info`) - together with those of them whose
+value is an object without content (`hollow`) and the names that hold the empty string (`blank`, not
+counted as set).  A service is its type, its declared site, its other set properties (same three
+lists), the site of the node that owns the service itself
 (none for a free-standing slice service) and its interfaces; an interface of a service is
 either a `ServicePort` together with what `get_peers()` returns, or any other kind (then the
 interface handed to the constraint check is that interface itself, owned by the service's
@@ -54,18 +56,32 @@ structure Cfg where
   node : List (String × NodeRow)
   nodeGetters : List String
   nodeShallow : List String
+  /-- node properties the check reads through the node handle instead of the shallow sliver (components) -/
+  nodeViaHandle : List String
   svcGetters : List String
   svcShallow : List String
-  /-- constrained service properties whose (non-string) value class defines `__len__`/`__bool__` -/
+  /-- constrained properties whose (non-string) value class defines `__len__`/`__bool__` -/
   svcFalsyCapable : List String
-  nodesViewExcludes : List String
+  nodeFalsyCapable : List String
+  /-- the presence test of each of the four check loops: `true` = truthiness of the value, `false` = `is not None` -/
+  svcReqTruthy : Bool
+  svcForbTruthy : Bool
+  nodeReqTruthy : Bool
+  nodeForbTruthy : Bool
+  /-- node types `Topology.validate` never hands to `validate_constraints` -/
+  nodeTypesNotValidated : List String
   guardPairs : List (String × String)
   ctorRunsGuardrails : Bool
   connectRunsGuardrails : Bool
 
 structure Node where
   ty : String
+  /-- properties that are set: a non-empty string or any object -/
   props : List String
+  /-- those of `props` whose value is an object without content: still set, but falsy if its class can be -/
+  hollow : List String := []
+  /-- properties that hold the empty string: not set, yet not `None` either -/
+  blank : List String := []
   deriving DecidableEq, Repr
 
 structure NIface where
@@ -99,6 +115,8 @@ structure Svc where
   /-- those of `props` whose value is an object without content (an ERO that refers to a graph or has no
   payload): still set, but falsy if its class defines `__len__`/`__bool__` -/
   hollow : List String
+  /-- properties (other than `site`) that hold the empty string: not set, yet not `None` either -/
+  blank : List String := []
   deriving Repr
 
 /-- the name-keyed view `NetworkService.interfaces` (a dict: one entry per distinct name) -/
@@ -117,17 +135,27 @@ def Topo.rename (f : String → String) (t : Topo) : Topo := { t with svcs := t.
 
 /-! ### nodes : `Node.validate_constraints` -/
 
-/-- `node_sliver.property_exists(p) and node_sliver.get_property(p)` on the shallow sliver rebuilt
-from the graph node's property dictionary. -/
-def nodeSees (c : Cfg) (n : Node) (p : String) : Bool :=
-  c.nodeGetters.contains p && (c.nodeShallow.contains p && n.props.contains p)
+/-- What a presence test makes of a property: the truthiness test (`if [not] value`) sees a set value unless it is an
+object without content of a class that can be falsy, and never an empty string; the `is not None` test sees both. -/
+def present (truthyTest : Bool) (falsyCapable props hollow blank : List String) (p : String) : Bool :=
+  if truthyTest then props.contains p && !(hollow.contains p && falsyCapable.contains p)
+  else props.contains p || blank.contains p
+
+/-- the check can read the property at all: through the node handle, or `node_sliver.property_exists(p)` and the shallow
+sliver rebuilt from the graph node's property dictionary carries it -/
+def nodeReadable (c : Cfg) (p : String) : Bool :=
+  c.nodeViaHandle.contains p || (c.nodeGetters.contains p && c.nodeShallow.contains p)
+
+/-- `__property_is_set(node_sliver, p)` as used by the loop with presence test `mode` -/
+def nodeSees (c : Cfg) (mode : Bool) (n : Node) (p : String) : Bool :=
+  nodeReadable c p && present mode c.nodeFalsyCapable n.props n.hollow n.blank p
 
 def validateNode (c : Cfg) (n : Node) : Res :=
   match c.node.lookup n.ty with
   | none => .error .key
   | some row =>
-    if row.req.all (nodeSees c n) then
-      if row.forb.any (nodeSees c n) then .error .topology else .ok ()
+    if row.req.all (nodeSees c c.nodeReqTruthy n) then
+      if row.forb.any (nodeSees c c.nodeForbTruthy n) then .error .topology else .ok ()
     else .error .topology
 
 def validateNodes (c : Cfg) : List Node → Res
@@ -137,9 +165,9 @@ def validateNodes (c : Cfg) : List Node → Res
     | .ok _ => validateNodes c ns
     | .error e => .error e
 
-/-- `Topology.nodes` (`_list_nodes`) leaves some node types out. -/
+/-- the nodes `Topology.validate` walks (`self.nodes`, which leaves Facility nodes out, and `self.facilities`) -/
 def visibleNodes (c : Cfg) (t : Topo) : List Node :=
-  t.nodes.filter fun n => !c.nodesViewExcludes.contains n.ty
+  t.nodes.filter fun n => !c.nodeTypesNotValidated.contains n.ty
 
 /-! ### services -/
 
@@ -204,21 +232,25 @@ def nstypeConstraints (exp : Bool) (row : SvcRow) (s : Svc) (nifs : List NIface)
           else (.ok (), some x)
         | _ => if truthy s.site then (.error .topology, s.site) else (.ok (), s.site)
 
-/-- Python truthiness of the value of a property that is set: false only for an object without content
-whose class can be falsy. (`validate_constraints` tests `if [not] sliver.get_property(p)`.) -/
-def valueTruthy (c : Cfg) (s : Svc) (p : String) : Bool :=
-  s.props.contains p && !(s.hollow.contains p && c.svcFalsyCapable.contains p)
+/-- what the presence test `mode` makes of the value of a service property (`validate_constraints` tests
+`if [not] sliver.get_property(p)`) -/
+def valueSeen (c : Cfg) (mode : Bool) (s : Svc) (p : String) : Bool :=
+  present mode c.svcFalsyCapable s.props s.hollow s.blank p
 
-/-- `ns_sliver.get_property(p)` truthiness; no getter is an `AttributeError` -/
-def svcSees (c : Cfg) (s : Svc) (site : Option String) (p : String) : Except Err Bool :=
+/-- ... and of the site the service has at that moment -/
+def siteSeen (mode : Bool) (site : Option String) : Bool :=
+  if mode then truthy site else site.isSome
+
+/-- the presence test on `ns_sliver.get_property(p)`; no getter is an `AttributeError` -/
+def svcSees (c : Cfg) (mode : Bool) (s : Svc) (site : Option String) (p : String) : Except Err Bool :=
   if c.svcGetters.contains p then
-    .ok (c.svcShallow.contains p && (if p == "site" then truthy site else valueTruthy c s p))
+    .ok (c.svcShallow.contains p && (if p == "site" then siteSeen mode site else valueSeen c mode s p))
   else .error .attribute
 
 def checkReq (c : Cfg) (s : Svc) (site : Option String) : List String → Res
   | [] => .ok ()
   | p :: ps =>
-    match svcSees c s site p with
+    match svcSees c c.svcReqTruthy s site p with
     | .error e => .error e
     | .ok true => checkReq c s site ps
     | .ok false => .error .topology
@@ -226,7 +258,7 @@ def checkReq (c : Cfg) (s : Svc) (site : Option String) : List String → Res
 def checkForb (c : Cfg) (s : Svc) (site : Option String) : List String → Res
   | [] => .ok ()
   | p :: ps =>
-    match svcSees c s site p with
+    match svcSees c c.svcForbTruthy s site p with
     | .error e => .error e
     | .ok false => checkForb c s site ps
     | .ok true => .error .topology
@@ -334,9 +366,12 @@ def connect (c : Cfg) (viaCtor : Bool) (ty kind : String) (ownerPresent connecte
 def genCfg : Cfg :=
   { svc := Gen.Constraints.svcRows, node := Gen.Constraints.nodeRows,
     nodeGetters := Gen.Constraints.nodeGetters, nodeShallow := Gen.Constraints.nodeShallow,
+    nodeViaHandle := Gen.Constraints.nodeViaHandle,
     svcGetters := Gen.Constraints.svcGetters, svcShallow := Gen.Constraints.svcShallow,
-    svcFalsyCapable := Gen.Constraints.svcFalsyCapable,
-    nodesViewExcludes := Gen.Constraints.nodesViewExcludes, guardPairs := Gen.Constraints.guardPairs,
+    svcFalsyCapable := Gen.Constraints.svcFalsyCapable, nodeFalsyCapable := Gen.Constraints.nodeFalsyCapable,
+    svcReqTruthy := Gen.Constraints.svcReqTruthy, svcForbTruthy := Gen.Constraints.svcForbTruthy,
+    nodeReqTruthy := Gen.Constraints.nodeReqTruthy, nodeForbTruthy := Gen.Constraints.nodeForbTruthy,
+    nodeTypesNotValidated := Gen.Constraints.nodeTypesNotValidated, guardPairs := Gen.Constraints.guardPairs,
     ctorRunsGuardrails := Gen.Constraints.ctorRunsGuardrails,
     connectRunsGuardrails := Gen.Constraints.connectRunsGuardrails }
 
